@@ -78,16 +78,20 @@ structure Term where
   lastFinish : Nat := 0
   attempts : Nat := 0                    -- refresh attempts of this term so far
   mustDemote : Option Nat := none        -- the loop has decided to demote at that instant
+  lastHealth : Option (Nat × Bool) := none -- instant and result of the latest health check of the term
   deriving Repr, Inhabited
 
 structure Inst where
   cfg : InstCfg
   term : Option Term := none
+  halted : Bool := false                 -- a stop call has begun or the run's context was cancelled (until the next term)
+  otherCause : Option Nat := none        -- instant of the latest event that can end a term from outside the loop (watch event, read, notification)
   deriving Repr, Inhabited
 
 structure State where
   insts : List Inst := []
   ops : List (Nat × Nat) := []           -- heartbeat ops: (op id, instance)
+  reads : List (Nat × Nat) := []         -- reads in flight: (op id, instance)
   ended : Bool := false
   deriving Repr, Inhabited
 
@@ -127,9 +131,28 @@ def step (s : State) (te : TEv) : R State :=
     | some x =>
       if il then
         match x.term with
-        | some tm => if tm.tok = tok then pure s else pure (s.set { x with term := some { tok := tok, since := t, lastStart := t, lastFinish := t } })
-        | none => pure (s.set { x with term := some { tok := tok, since := t, lastStart := t, lastFinish := t } })
-      else pure (s.set { x with term := none })
+        | some tm => if tm.tok = tok then pure s else pure (s.set { x with halted := false, term := some { tok := tok, since := t, lastStart := t, lastFinish := t } })
+        | none => pure (s.set { x with halted := false, term := some { tok := tok, since := t, lastStart := t, lastFinish := t } })
+      else
+        -- the flag is lowered at the very instant of an unhealthy check, with the count below the threshold, no failed refresh
+        -- decided or in flight, no stop call, and nothing else at this instant that could have ended the term: the loop
+        -- demoted on too few unhealthy results
+        match x.term with
+        | some tm =>
+          let tm := expire x.cfg tm t
+          if tm.lastHealth = some (t, false) ∧ tm.mustDemote.isNone ∧ tm.pending.isNone ∧ ¬ x.halted ∧ x.otherCause ≠ some t ∧
+             tm.run < healthThreshold x.cfg.maxFail then
+            reject s!"instance {i}: demoted at an unhealthy check with {tm.run} consecutive unhealthy results, threshold {healthThreshold x.cfg.maxFail}"
+          else pure (s.set { x with term := none })
+        | none => pure (s.set { x with term := none })
+  | .api _ i .stop | .api _ i (.stopctx _ _ _ _) | .cancelCtx i =>
+    match s.get i with
+    | some x => pure (s.set { x with halted := true })
+    | none => pure s
+  | .wev _ i _ _ | .conn i _ =>
+    match s.get i with
+    | some x => pure (s.set { x with otherCause := some t })
+    | none => pure s
   | .health i _ res rem =>
     match s.get i with
     | none => pure s
@@ -142,7 +165,7 @@ def step (s : State) (te : TEv) : R State :=
           if tm.mustDemote.isSome then reject s!"instance {i}: health check after the loop decided to demote"
           else
             let (run, d) := onHealth (healthThreshold x.cfg.maxFail) tm.run res
-            pure (s.set { x with term := some { tm with run := run, mustDemote := if d then some t else none } })
+            pure (s.set { x with term := some { tm with run := run, mustDemote := if d then some t else none, lastHealth := some (t, res) } })
   | .call op i .update _ _ (.own id tok _) =>
     match s.get i with
     | none => pure s
@@ -161,9 +184,18 @@ def step (s : State) (te : TEv) : R State :=
             -- the loop is paced by a ticker of period H created when the term began: the k-th attempt cannot precede the k-th tick
             reject s!"instance {i}: refresh attempt number {tm.attempts + 1} of the term at {t}, before the tick at {tm.since + (tm.attempts + 1) * x.cfg.hb}"
           else pure { (s.set { x with term := some { tm with pending := some (op, t), lastStart := t, attempts := tm.attempts + 1 } }) with ops := (op, i) :: s.ops }
+  | .call op i .get _ _ _ => pure { s with reads := (op, i) :: s.reads }
   | .ret op r =>
     match s.ops.find? (·.1 = op) with
-    | none => pure s
+    | none =>
+      -- the answer to a read (validation, reconnect verification) can end the term at this instant
+      match s.reads.find? (·.1 = op) with
+      | some (_, i) =>
+        let s := { s with reads := s.reads.filter (·.1 ≠ op) }
+        match s.get i with
+        | some x => pure (s.set { x with otherCause := some t })
+        | none => pure s
+      | none => pure s
     | some (_, i) =>
       let s := { s with ops := s.ops.filter (·.1 ≠ op) }
       match s.get i with
